@@ -367,7 +367,7 @@ def measure(U: Any, case: OpCase, data_seed: int, up_seed: int, dtype: torch.dty
     bres: Dict[str, float] = {}
     if want_grads and case.diff:
         gref = call_ref(case, tr, rs, sum_losses=sum_losses_for_grad) if case.op in ("cross_entropy", "mse_loss") else ref
-        gu = torch.Generator().manual_seed(up_seed)
+        gu = torch.Generator().manual_seed(up_seed * 7919 + 104729)   # never the data stream's seed
         up = torch.randn(out.shape, generator=gu, dtype=torch.float64).to(out.dtype)
         gi = torch.autograd.grad(out, [ti[n] for n in case.diff], up, allow_unused=True)
         gr = torch.autograd.grad(gref, [tr[n] for n in case.diff], up.to(gref.dtype), allow_unused=True)
